@@ -416,9 +416,11 @@ func (c *stepCtx) stepDecode(k int, st map[string]interface{}) string {
 	inpre := digestBytes(in)
 	var ms0, ms1 runtime.MemStats
 	runtime.ReadMemStats(&ms0)
+	h0 := hookAllocBytes.Load()
 	t0 := time.Now()
 	n, err, pan := callDecode(in, dest.Interface())
 	us := time.Since(t0).Microseconds()
+	halloc := hookAllocBytes.Load() - h0 // what the decoder's allocator took for this call (exact when single-threaded)
 	runtime.ReadMemStats(&ms1)
 	inpost := digestBytes(in)
 	alloc := ms1.TotalAlloc - ms0.TotalAlloc
@@ -444,9 +446,9 @@ func (c *stepCtx) stepDecode(k int, st map[string]interface{}) string {
 			}
 		}
 	}
-	head := fmt.Sprintf(`"ev":"Decode","ty":%q,"in":%s,"dest":%s,"orig":%d,"hops":%d,"obs":{"inpre":%q,"inpost":%q,"alloc":%d,"us":%d,`,
+	head := fmt.Sprintf(`"ev":"Decode","ty":%q,"in":%s,"dest":%s,"orig":%d,"hops":%d,"obs":{"inpre":%q,"inpost":%q,"alloc":%d,"halloc":%d,"us":%d,`,
 		ty, jbytes(in), destJSON, num(st, "orig", -1), num(st, "hops", 1), inpre, inpost,
-		c.quiet(clamp(alloc)), c.quiet(clamp(uint64(us))))
+		c.quiet(clamp(alloc)), c.quiet(clamp(halloc)), c.quiet(clamp(uint64(us))))
 	if pan != nil {
 		return head + panicObs(pan) + "}"
 	}
